@@ -53,6 +53,12 @@ def deco1(c):
 def deco2(c):
     c.d2 = getattr(c, 'd1', 'nod1') + '+d2'
     return c
+def trace(fn):
+    # a decorator that *calls* what it received (it must get the function, not a classmethod object)
+    def wrapper(*a, **k):
+        return ('traced', fn(*a, **k))
+    wrapper.kind_received = type(fn).__name__
+    return wrapper
 class Desc:
     def __set_name__(self, owner, name): self.name = name
     def __get__(self, obj, tp=None): return 'desc:' + getattr(self, 'name', '?')
@@ -91,6 +97,11 @@ MEMBERS = {
     'super0_in_loops': ["def who(self):", "    out = []", "    for i in range(2):", "        out.append('K' + str(i) + '>' + (super().who() if hasattr(super(), 'who') else '-'))",
                         "    n = 0", "    while n < 1:", "        n += 1", "        if hasattr(super(), 'who'):", "            out.append(super().who())", "    return out",
                         "@classmethod", "def c(cls):", "    for _ in range(1):", "        r = ('c-in-loop', cls.__name__, super().__name__ if False else cls.__mro__[1].__name__)", "    return r"],
+    'kwdefault_classvar': ["LIMIT = 3", "def take(self, *items, n=LIMIT, m=(LIMIT, 'm')):", "    return (n, m, len(items))", "@staticmethod", "def stake(*, n=LIMIT):", "    return n",
+                           "@classmethod", "def ctake(cls, a=LIMIT, *, n=[LIMIT]):", "    return (a, n)", "LIMIT = 'rebound-later'"],
+    'initsub_decorated': ["@trace", "def __init_subclass__(cls, **kw):", "    super().__init_subclass__(**kw)", "    cls.sub_seen = 'traced-hook-ran'"],
+    'decorated_methods': ["@trace", "def m(self, a=2):", "    return ('m', a)", "@staticmethod", "@trace", "def s(a):", "    return ('s', a)", "@classmethod", "@trace", "def c(cls):", "    return ('c', cls.__name__)",
+                          "@property", "@trace", "def p(self):", "    return 'p'"],
     'classcell': ["def cc(self):", "    return __class__.__name__", "def cc_super(self):", "    return super().__class__.__name__, super().__init__ is not None"],
 }
 CALLS = ('m', 'm5', 's', 'c', 'p', 'im', 'lam', 'who', 'who2', 'getpv', 'dd', 'md', 'tag', 'hello', 'd1', 'd2')
@@ -123,7 +134,7 @@ def _obs(K):
     for name, call in [('m', lambda: o.m()), ('m5', lambda: o.m(5)), ('s', lambda: K.s(1)), ('c', lambda: K.c()), ('p', lambda: o.p), ('im', lambda: K.Inner().im()), ('lam', lambda: o.lam()),
                        ('who', lambda: o.who()), ('who2', lambda: o.who2()), ('getpv', lambda: o.getpv()), ('dd', lambda: o.dd), ('md', lambda: o.md()), ('tag', lambda: K.tag), ('hello', lambda: K.hello()),
                        ('d1', lambda: K.d1), ('d2', lambda: K.d2), ('hasdict', lambda: hasattr(o, '__dict__')), ('repr', lambda: repr(o) if 'K()' == repr(o) else 'default'),
-                       ('cm2', lambda: o.cm2()), ('cc', lambda: o.cc()), ('cc_super', lambda: o.cc_super()), ('at_deco_time', lambda: K.at_deco_time), ('from_deco', lambda: K.from_deco), ('ps', lambda: (K.ps, K.pt, o.pm())), ('hv', lambda: K.hv), ('mk', lambda: type(K.mk()).__name__), ('iv', lambda: o.iv), ('setp', lambda: (setattr(o, 'p', 3), o._pv)[1]),
+                       ('cm2', lambda: o.cm2()), ('cc', lambda: o.cc()), ('cc_super', lambda: o.cc_super()), ('at_deco_time', lambda: K.at_deco_time), ('from_deco', lambda: K.from_deco), ('ps', lambda: (K.ps, K.pt, o.pm())), ('take', lambda: (o.take(), o.take(1, n=0), K.stake(), K.ctake(), K.take.__kwdefaults__)), ('kind_received', lambda: K.__dict__['__init_subclass__'].__func__.kind_received), ('hv', lambda: K.hv), ('mk', lambda: type(K.mk()).__name__), ('iv', lambda: o.iv), ('setp', lambda: (setattr(o, 'p', 3), o._pv)[1]),
                        ('seen_by_meta', lambda: K.seen_by_meta), ('attrs_at_subclass_time', lambda: K.attrs_at_subclass_time), ('sc', lambda: K().s(2)), ('cnt', lambda: (K.cnt, K.lst))]:
         try: out.append((name, repr(call())))
         except Exception as e: out.append((name, 'exc:' + type(e).__name__))
@@ -204,7 +215,7 @@ def cells(tier):
         for combo in itertools.combinations(names, r):
             if 'slots' in combo and ('data' in combo or 'augattr' in combo) and False:
                 continue
-            reps = 2 if tier == "quick" else 8
+            reps = (2 if r == 2 else 1) if tier == "quick" else 8
             for j in range(reps):
                 i += 1
                 yield HEADERS[(i * 7) % len(HEADERS)], list(combo), PLACES[i % len(PLACES)]
